@@ -43,6 +43,7 @@ type SpecFunc struct {
 	Result string // type text
 	Body   Expr   // nil: uninterpreted
 	Pos    string
+	Pkg    interface{} // *types.Package of the defining file
 }
 
 type SpecParam struct{ Name, Type string }
